@@ -53,8 +53,6 @@ theorem minOf_le' {o r : Nat} {hole : Option Nat} (id h : Nat) (hr : ∀ c, hole
     · subst h2; simp [h1]
     · simp [h1, h2]
 
-theorem NodeOcc.mono {o m m' : Nat} {sh : Shallow K V} (h : NodeOcc o m sh) (hm : m' ≤ m) : NodeOcc o m' sh :=
-  ⟨h.1, Nat.le_trans hm h.2.1, h.2.2⟩
 
 def OccOk' (hole : Option Nat) (t : Tree K V) : Prop :=
   ∀ p ∈ t.flat, NodeOcc t.order (minOf' t.order t.rootId hole p.1 p.2.height) p.2
